@@ -508,13 +508,23 @@ def _result_sites(ctx) -> None:
         ok, why = True, "no dtype: inferred from the stored values"
         pairs_fallback = False
         if s.dtype is not None and s.dtype != SNONE:
-            for d in leaves(s.dtype):
+            def _alts(t, conds=()):
+                if t is None:
+                    return []
+                if t[0] == "ifexp":
+                    return _alts(t[2], conds + ((t[1], True),)) + _alts(t[3], conds + ((t[1], False),))
+                return [(t, conds)]
+            data_alts = _alts(s.data)
+            for d, dconds in _alts(s.dtype):
                 if d == SNONE:
                     continue
+                # (data and dtype chosen together by one condition: the data alternatives of this dtype's own branch)
+                own_data = [x for x, cx in data_alts if not any((c_, not p_) in cx for c_, p_ in dconds)] or [x for x, _ in data_alts]
                 if d[0] == "param" and d[1] in s.top.params:
                     ok, why = False, "dtype comes from a parameter"
                 elif d[0] == "call" and d[1] == ("name", "infer_dtype") and len(d[2]) == 1 and s.data is not None \
-                        and strip_seq(it, d[2][0]) == strip_seq(it, s.data):
+                        and (strip_seq(it, d[2][0]) == strip_seq(it, s.data)
+                             or (own_data and all(strip_seq(it, d[2][0]) == strip_seq(it, x) for x in own_data))):
                     why = "infer_dtype over the stored data"
                 elif d == ("call", ("name", "DataType"), (("name", "object"),), ()):
                     evs = [element_values(it, x) for x in leaves(s.data)]
@@ -536,7 +546,7 @@ def _result_sites(ctx) -> None:
                 else:
                     ok, why = False, f"explicit dtype `{s.sh(d, 50)}` instead of inference over the result values"
                     if d[0] == "call" and d[1] == ("name", "DataType") and d[2][:1] == (("name", "object"),) and s.data is not None:
-                        evs_ = [element_values(it, x) for x in leaves(s.data)]
+                        evs_ = [element_values(it, x) for x in own_data]
                         if evs_ and all(e is not None and any(v[0] == "tuple" or (v[0] == "ifexp" and any(y[0] == "tuple" for y in leaves(v)))
                                                               for v, _ in e) for e in evs_):
                             pairs_fallback = True
